@@ -99,6 +99,8 @@ func checkC01(c *Ctx) {
 	checkRemoveAbsent(c)
 	checkRollbackFrame(c)
 	checkCacheRefresh(c)
+	// Rollback and Hash are defined by lastSaved: it must follow every successful commit / load
+	checkLastSaved(c)
 	checkMergeOrder(c)
 
 	checkTreeRules(c, l, map[string]bool{"insert": true, "remove": true, "lookup": true})
